@@ -109,44 +109,3 @@ Proof.
 Qed.
 
 Print Assumptions reduce_deltas_tie.
-
-(* ------------------------------------------------------------------ reweight: the per-replica products *)
-Open Scope Q_scope.
-Lemma zip_mult_is_model a : forall b, List.length a = List.length b ->
-  Forall2 Qeq (arr_zip Qmult a b) (map (fun p => Qred (fst p * snd p)) (combine a b)).
-Proof.
-  induction a as [|x a IH]; intros [|y b] H; simpl in H; try lia; [constructor|]. cbn [arr_zip combine map fst snd].
-  constructor; [rewrite Qred_correct; reflexivity|apply IH; lia].
-Qed.
-
-(* the regenerated statements of the replica loop of reweight() multiply, entry by entry, the weight's samples selected for the
-   observable's configuration NUMBERS (reduce_deltas_tie + reduce_is_restriction) with the observable's samples, as the model
-   Obs/Pairing.v:reweight_with does; a selection that fails raises *)
-Theorem reweight_samples_tie wdeltas widl wr odeltas oidl orv wd :
-  Sorted.StronglySorted Z.lt (cfgs widl) -> Sorted.StronglySorted Z.lt (cfgs oidl) ->
-  reduce_deltas wdeltas widl oidl = Some wd -> List.length odeltas = List.length (cfgs oidl) ->
-  exists r, reweight_samples wdeltas widl wr odeltas oidl orv = Ok r
-            /\ Forall2 Qeq r (map (fun p => Qred (fst p * snd p))
-                                  (combine (map (fun d => d + wr) wd) (map (fun d => d + orv) odeltas))).
-Proof.
-  intros Hw Ho E Hl. unfold reweight_samples. rewrite reduce_deltas_tie by assumption. rewrite E. cbn [lift bind].
-  assert (Hwd : List.length wd = List.length (cfgs oidl)).
-  { unfold reduce_deltas in E. destruct (Nat.eqb (List.length wdeltas) (List.length (cfgs widl))) eqn:El; cbn [negb] in E; [|discriminate].
-    apply Nat.eqb_eq in El.
-    destruct (isr widl && isr oidl && zlist_eqb (cfgs widl) (cfgs oidl)) eqn:E1.
-    - injection E as <-. apply andb_true_iff in E1. destruct E1 as [_ Ez]. apply zlist_eqb_eq in Ez. congruence.
-    - destruct (idl_eqb widl oidl) eqn:E2.
-      + injection E as <-. unfold idl_eqb in E2. apply andb_true_iff in E2. destruct E2 as [_ Ez]. apply zlist_eqb_eq in Ez. congruence.
-      + destruct (Nat.ltb_spec (List.length (inter_positions (cfgs widl) (cfgs oidl) 0)) (List.length (cfgs oidl))) as [Hlt|Hge]; [discriminate|].
-        injection E as <-. rewrite map_length.
-        assert (G : forall a b pos, (List.length (inter_positions a b pos) <= List.length b)%nat).
-        { induction a as [|u a IHa]; intros b pos; [destruct b; simpl; lia|].
-          induction b as [|v b IHb]; [simpl; lia|]. rewrite inter_positions_unfold. destruct (u <? v)%Z.
-          - specialize (IHa (v :: b) (S pos)). exact IHa.
-          - destruct (v <? u)%Z; [simpl in *; lia|]. simpl. specialize (IHa b (S pos)). lia. }
-        pose proof (G (cfgs widl) (cfgs oidl) 0%nat). lia. }
-  unfold py_arr_mul2, py_arr_zip, arr_add_s. rewrite !map_length.
-  replace (Nat.eqb (List.length wd) (List.length odeltas)) with true by (symmetry; apply Nat.eqb_eq; lia).
-  cbn [bind]. eexists. split; [reflexivity|]. apply zip_mult_is_model. rewrite !map_length. lia.
-Qed.
-Print Assumptions reweight_samples_tie.
